@@ -30,7 +30,7 @@ EXPLANATION = ("Theorems: invariant (indices exact, species = occurring (+kept),
                "for every reachable world of the old and of the extended history language; frame/independence of networks and of caller-held "
                "side objects; queries never change the state; refinement to the id->reaction spec; exact label semantics (labels only for present "
                "species, never for reaction ids; last entry wins; no truthiness test); RXNSide normalisation = positive multiset of positive counts; "
-               "incidence sparse and dense = products - reactants; neighbors exact; paths sound. "
+               "incidence sparse and dense = products - reactants; neighbors exact; paths sound, complete, ordered; whole-history statement of the first clause. "
                "Correspondence: model state (and every answer handed back) compared with the implementation after every operation.")
 TRUSTED_BASE = [
     "Coq 8.16.1 kernel + vm_compute (no native_compute)",
@@ -41,7 +41,7 @@ TRUSTED_BASE = [
 ]
 ASSUMPTIONS = ["species labels and ids are printable ASCII strings", "molecule labels are strings",
                "RXNSide input given as iterable of (label, int) pairs"]
-TESTED_NOT_PROVED = ["paths: completeness and the order of the answers, max_paths truncation (oracle: brute-force enumeration of simple paths)",
+TESTED_NOT_PROVED = [
                      "__repr__ (oracle: mentions every stored id and species; equal for an equal network)",
                      "insertion order inside a side (RXNSide.to_dict / expand order); sides are unordered maps in the model",
                      "numpy array construction of the dense matrix (the model has lists of rows)",
@@ -401,7 +401,7 @@ def gen_cases(tier, rng):
         triples = list(itertools.product(A, repeat=3))
         for seq in rng.sample(triples, 30000):
             cases.append(dict(kind="sample-empty3", n=2, ops=[list(o) for o in seq]))
-        nrand, maxlen = 6000, 60
+        nrand, maxlen = 3500, 60      # 6000 histories of <= 60 ops held ~3.5 GB of observables in the main process
     for k in range(nrand):
         cases.append(dict(kind="random", n=3, ops=_rand_hist(rng, maxlen, rng.choice([3, 4, 7]), 3)))
     from ..gen import c15_ext
@@ -415,7 +415,7 @@ LEVEL_TEXT = ("Machine-checked proof (Coq) over an executable model of CRNHyperG
               "id->reaction specification prescribes; incidence (sparse and dense) = products - reactants. Round 3: the same for the extended "
               "history language covering the whole public surface (all input forms, RXNSide objects passed in, duck-typed merge, coefficient "
               "edits, every query): queries never change the state, labels are stored exactly for present species and never for reaction ids, "
-              "neighbors exact, paths sound. The model is tied to the Python code by comparing the complete public state and every answer after "
+              "neighbors exact, paths sound, complete and ordered. The model is tied to the Python code by comparing the complete public state and every answer after "
               "every operation of thousands of generated histories on every run.")
 LEVEL_NOTE = ("Trusted: Coq kernel + vm_compute, std++; the hand-written model and the harness encoders; CPython dict/set/deepcopy semantics. "
-              "Tested only: completeness/order of paths, __repr__, numpy construction of the dense matrix; parse_rxns / add_rxn_from_str belong to C16.")
+              "Tested only: __repr__, numpy construction of the dense matrix; parse_rxns / add_rxn_from_str belong to C16.")
